@@ -66,7 +66,7 @@ def r12a(ctx):
     if arg is None:
         ctx.bad("_shuffle.RearrangeByColumn._lower:cast-dtype", rbc.module.loc(ctor), "AssignPartitioningIndex is built without a cast dtype")
         return
-    ok, why = _all_defs_cast(defs, arg, lo)
+    ok, why = _all_defs_cast(defs, arg, lo, model=model, mod=rbc.module, cls=rbc)
     (ctx.ok if ok else ctx.bad)("_shuffle.RearrangeByColumn._lower:cast-dtype", rbc.module.loc(ctor), "every definition of the cast dtype goes through _is_numeric_cast_type" if ok else f"cast dtype `{ast.unparse(arg)}` can come from `{why}` without consulting _is_numeric_cast_type")
     # (c) same versions of frame / partitioning_index
     watched = [p for p in ("frame", "partitioning_index") if any(isinstance(x, ast.Name) and x.id == p for a in ctor.args for x in ast.walk(a))]
@@ -119,7 +119,7 @@ def _ord(fn, call):
     return next(i for i, x in enumerate(xs) if x is call)
 
 
-def _all_defs_cast(defs, arg, fn, depth=0, seen=None):
+def _all_defs_cast(defs, arg, fn, depth=0, seen=None, model=None, mod=None, cls=None):
     """every definition of the value mentions _is_numeric_cast_type, is None-from-empty, or an accumulator filled under it"""
     seen = seen or set()
     if not isinstance(arg, ast.Name):
@@ -132,6 +132,11 @@ def _all_defs_cast(defs, arg, fn, depth=0, seen=None):
         t = ast.unparse(d.value)
         if "_is_numeric_cast_type" in t or t in ("None", "False"):
             continue
+        if model is not None:
+            from sa.rules.util import closure_text
+
+            if "_is_numeric_cast_type" in closure_text(model, mod, cls, d.value, depth=1):
+                continue
         if t == "{}":
             # accumulator: every store into it must be under a _is_numeric_cast_type test
             stores = [n for n in ast.walk(fn) if isinstance(n, ast.Assign) and any(isinstance(tg, ast.Subscript) and isinstance(tg.value, ast.Name) and tg.value.id == arg.id for tg in n.targets)]
